@@ -406,6 +406,17 @@ files["os/path.go"] = patch("os/path.go", [
 """),
 ])
 
+# ---------------------------------------------------------------- testing/synctest
+files["testing/synctest/verif.go"] = r'''
+package synctest
+
+import "internal/synctest"
+
+// VerifRun runs f in a new bubble without a *testing.T (no per-bubble test
+// bookkeeping, no race-error check that would fail the surrounding test).
+func VerifRun(f func()) { synctest.Run(f) }
+'''
+
 overlay = {"Replace": {}}
 std = os.path.join(OUT, "std")
 for rel, text in files.items():
